@@ -4,6 +4,8 @@
 -/
 import Gotree.Lemmas.C11Pools
 import Gotree.Lemmas.C11Collect
+import Gotree.Lemmas.C11HashMapSpec
+import Gotree.Model.C11Tbe
 
 namespace Gotree.C11
 
@@ -931,6 +933,107 @@ theorem fbp_error_schedule_independent (f : α → β) (stops : α → Bool) (w 
   have h := (error_reaches_caller_anycap FBP_worker0.facts (by decide) f stops w hw cap inp _ hR hT).2 (by decide)
   exact ⟨h.1, h.2.mpr hbad⟩
 
+/-- ★ TBE, the whole call: for every stream (erroneous trees at any position included), every worker count,
+    every capacity of the edge channel and every FAMILY of schedules (one per bootstrap tree), the outer loop
+    of `support.TBE` run with the pool shape extracted from the source computes exactly what the one-thread
+    loop `tbeSeq` computes: the same error for the first erroneous tree, otherwise the same raw supports and
+    the same `nboot`. -/
+theorem tbe_schedule_independent (ref : T) (w : Nat) (hw : 1 ≤ w) (cap : Nat) (scheds : Nat → List (Nat × Nat)) :
+    ∀ (items : List Item) (k : Nat) (sups : List Rat),
+      tbeOuter tbePool.shape ref w cap scheds items k sups = tbeSeq ref items k sups := by
+  intro items
+  induction items with
+  | nil => intro k sups; rfl
+  | cons it rest ih =>
+    intro k sups
+    cases hb : it.bad ref with
+    | some c => simp [tbeOuter, tbeSeq, hb]
+    | none =>
+      cases it with
+      | err => simp [Item.bad] at hb
+      | tree b =>
+        have hc := (runToEnd_complete_anycap tbePool (by decide) (tbeItemFn ref b) (fun _ => false) w hw cap (tbeItems ref sups)
+          (Or.inl (by decide)) (scheds k)).1
+        have hp := pool_no_send_on_closed tbePool (tbeItemFn ref b) (fun _ => false) w cap (tbeItems ref sups) _
+          (runToEnd_maximal tbePool (tbeItemFn ref b) (fun _ => false) w cap (tbeItems ref sups) (scheds k)).1
+        have hf := tbe_fanout_schedule_independent ref b sups w hw cap (scheds k)
+        simp only [tbeOuter, tbeSeq, hb, hc, hp, hf, Bool.not_true, Bool.or_self, Bool.false_eq_true, if_false]
+        cases tbeCollect ref.splits.length ((tbeItems ref sups).map (tbeItemFn ref b)) with
+        | none => rfl
+        | some sups' => exact ih (k + 1) sups'
+
+/-- the caller's view: the normalised supports or the error, the same for every thread count and schedule -/
+theorem tbe_call_schedule_independent (ref : T) (w : Nat) (hw : 1 ≤ w) (cap : Nat) (scheds : Nat → List (Nat × Nat)) (items : List Item) :
+    tbeCall tbePool.shape ref w cap scheds items = tbeCallSeq ref items := by
+  unfold tbeCall tbeCallSeq
+  rw [tbe_schedule_independent ref w hw cap scheds]
+
+/-- TBE: an erroneous tree ANYWHERE in the stream makes the call fail, under every schedule: the error
+    reaches the caller (the call never returns supports computed without that tree). -/
+theorem tbe_error_reaches_caller (ref : T) (w : Nat) (hw : 1 ≤ w) (cap : Nat) (scheds : Nat → List (Nat × Nat))
+    (items : List Item) (hbad : ∃ it ∈ items, it.isBad ref = true) :
+    ∃ c, tbeCall tbePool.shape ref w cap scheds items = .error c := by
+  rw [tbe_call_schedule_independent ref w hw cap scheds]
+  unfold tbeCallSeq
+  suffices h : ∀ (items : List Item) (k : Nat) (sups : List Rat), (∃ it ∈ items, it.isBad ref = true) →
+      ∃ c, tbeSeq ref items k sups = .error c by
+    obtain ⟨c, hc⟩ := h items 0 _ hbad
+    exact ⟨c, by rw [hc]⟩
+  intro items
+  induction items with
+  | nil => intro k sups h; obtain ⟨it, hm, _⟩ := h; cases hm
+  | cons it rest ih =>
+    intro k sups h
+    cases hb : it.bad ref with
+    | some c => exact ⟨c, by simp [tbeSeq, hb]⟩
+    | none =>
+      have hrest : ∃ it' ∈ rest, it'.isBad ref = true := by
+        obtain ⟨it', hm, hbad'⟩ := h
+        rcases List.mem_cons.mp hm with e | hr
+        · subst e; simp [Item.isBad, hb] at hbad'
+        · exact ⟨it', hr, hbad'⟩
+      cases it with
+      | err => simp [Item.bad] at hb
+      | tree b =>
+        simp only [tbeSeq, hb]
+        cases tbeCollect ref.splits.length ((tbeItems ref sups).map (tbeItemFn ref b)) with
+        | none => exact ⟨"lost-branch", rfl⟩
+        | some sups' => exact ih (k + 1) sups' hrest
+
+-- the hypothesis of `tbe_error_reaches_caller` is satisfiable: an item carrying an error is erroneous for every reference
+example (ref : T) : ∃ it ∈ [Item.tree ref, Item.err], it.isBad ref = true := ⟨.err, by simp, rfl⟩
+
+/-- the progress counter (one increment per tree whose iteration completes = one message of the model): on a
+    stream without erroneous tree every schedule of the extracted FBP pool completes every tree exactly once -/
+theorem fbp_progress_schedule_independent (ref : T) (stops : (Nat × Item) → Bool) (w : Nat) (hw : 1 ≤ w) (cap : Nat)
+    (inp : List (Nat × Item)) (hno : ∀ x ∈ inp, stops x = false) (sched : List (Nat × Nat)) :
+    (runToEnd FBP_worker0.facts.shape (fun x : Nat × Item => fbpFound ref x.2) stops w cap inp sched).out.length = inp.length := by
+  have h := (runToEnd_complete_anycap FBP_worker0.facts (by decide) (fun x : Nat × Item => fbpFound ref x.2) stops w hw cap inp
+    (Or.inr hno) sched).2
+  simpa using h.length_eq
+
+/-- TBE counts every tree of a stream it accepts: `nboot` (and the progress counter) is the number of trees -/
+theorem tbe_counts_every_tree (ref : T) : ∀ (items : List Item) (k : Nat) (sups s : List Rat) (k' : Nat),
+    tbeSeq ref items k sups = .ok (s, k') → k' = k + items.length := by
+  intro items
+  induction items with
+  | nil => intro k sups s k' h; simp [tbeSeq] at h; simp [h.2]
+  | cons it rest ih =>
+    intro k sups s k' h
+    cases hb : it.bad ref with
+    | some c => simp [tbeSeq, hb] at h
+    | none =>
+      cases it with
+      | err => simp [Item.bad] at hb
+      | tree b =>
+        simp only [tbeSeq, hb] at h
+        cases hc : tbeCollect ref.splits.length ((tbeItems ref sups).map (tbeItemFn ref b)) with
+        | none => simp [hc] at h
+        | some sups' =>
+          simp only [hc] at h
+          have := ih (k + 1) sups' s k' h
+          simp only [List.length_cons]; omega
+
 /-- "Tree by tree": when the items carry distinct identifiers that the per-item function copies into its
     result (the tree id of `BipartitionStats`), every maximal run of a clean recording pool delivers
     exactly one result per identifier of the stream. -/
@@ -990,6 +1093,74 @@ theorem reader_leak_fails :
     ∃ (s : PState Nat Nat), Reachable readerPinned id (fun _ => false) (init 1 1 []) s ∧
       Terminal readerPinned id (fun _ => false) s ∧ s.closed = false :=
   producer_leak_deadlocks readerPinned (by decide) id (fun _ => false)
+
+/-! ## The shared hash map (`hashmap/hashmap.go`, Model/C11HashMap.lean)
+
+  Every exported method holds the map's lock for its whole body (`table_hashmap_all_locked`), so a
+  concurrent history is an interleaving of WHOLE calls: a list of operations.  The theorems below are
+  about every such list, every initial capacity (powers of two or not — the callers pass `2·#edges`),
+  every load factor and every hash function. -/
+
+/-- `NewHashMap` establishes the representation invariant (for a size of 0 too: one bucket) -/
+theorem hashmap_new_wf {κ ν : Type} [DecidableEq κ] (hash : κ → Nat) (size lfNum lfDen : Nat) :
+    HM.WF hash (HM.new size lfNum lfDen : HM.HMap κ ν) ∧ HM.entries (HM.new size lfNum lfDen : HM.HMap κ ν) = [] :=
+  ⟨HM.new_wf hash size lfNum lfDen, HM.new_entries size lfNum lfDen⟩
+
+/-- `Value` never indexes outside `mapArray` and answers the association-list lookup -/
+theorem hashmap_value_is_lookup {κ ν : Type} [DecidableEq κ] (hash : κ → Nat) (m : HM.HMap κ ν) (hw : HM.WF hash m) (k : κ) :
+    HM.value hash m k = .ok (HM.lookup (HM.entries m) k) := HM.value_eq hash m hw k
+
+/-- `PutValue` (with its `rehash`) never panics, keeps the invariant, is the association-list update, and
+    adds the key to `Keys` exactly when it was not stored -/
+theorem hashmap_putValue_spec {κ ν : Type} [DecidableEq κ] (hash : κ → Nat) (m : HM.HMap κ ν) (hw : HM.WF hash m) (k : κ) (v : ν) :
+    ∃ m', HM.putValue hash m k v = .ok m' ∧ HM.WF hash m' ∧
+      (∀ k', HM.lookup (HM.entries m') k' = if k' = k then some v else HM.lookup (HM.entries m) k') ∧
+      ((HM.entries m').map Prod.fst).Perm
+        (if k ∈ (HM.entries m).map Prod.fst then (HM.entries m).map Prod.fst else k :: (HM.entries m).map Prod.fst) :=
+  HM.putValue_spec hash m hw k v
+
+/-- `rehash` alone: no panic, invariant kept for the doubled capacity, same entries -/
+theorem hashmap_rehash_spec {κ ν : Type} [DecidableEq κ] (hash : κ → Nat) (m : HM.HMap κ ν) (hw : HM.WF hash m) :
+    ∃ m', HM.rehash hash m = .ok m' ∧ HM.WF hash m' ∧ (HM.entries m').Perm (HM.entries m) := HM.rehash_spec hash m hw
+
+/-- `Keys` / `KeyValues`: no index error, no nil cell, every entry once -/
+theorem hashmap_keys_complete {κ ν : Type} [DecidableEq κ] (hash : κ → Nat) (m : HM.HMap κ ν) (hw : HM.WF hash m) :
+    HM.keys m = .ok ((HM.entries m).map (fun kv => some kv.1)) ∧ HM.keyValues m = .ok ((HM.entries m).map some) :=
+  ⟨HM.keys_eq hash m hw, HM.cells_eq hash m hw⟩
+
+/-- ★ the model of the hash map meets the Spec of a history (`HM.historyOK`, the oracle of `C11.hmseq`):
+    for every list of calls on a new map -/
+theorem hashmap_history_meets_spec (hash : Nat → Nat) (size lfNum lfDen : Nat) (ops : List (HM.Op Nat Int)) :
+    HM.historyOK [] ops (HM.runOps hash (HM.new size lfNum lfDen) ops) = true :=
+  HM.runOps_meets_spec hash ops _ [] (HM.new_wf hash size lfNum lfDen) (by rw [HM.new_entries])
+
+/-- ★ schedule-independence of the filling of a shared map: two interleavings of `PutValue` calls that agree
+    key by key (goroutines owning disjoint keys, each in its own order) never panic and leave maps that
+    answer every `Value` alike -/
+theorem hashmap_interleaving_independent {κ ν : Type} [DecidableEq κ] (hash : κ → Nat) (size lfNum lfDen : Nat)
+    (ops1 ops2 : List (κ × ν))
+    (h : ∀ k, ops1.filter (fun o => decide (o.1 = k)) = ops2.filter (fun o => decide (o.1 = k))) :
+    ∃ m1 m2, HM.putAll hash (HM.new size lfNum lfDen) ops1 = some m1 ∧ HM.putAll hash (HM.new size lfNum lfDen) ops2 = some m2 ∧
+      ∀ k, HM.value hash m1 k = HM.value hash m2 k :=
+  HM.putAll_interleaving hash _ (HM.new_wf hash size lfNum lfDen) ops1 ops2 h
+
+/-- after any list of `PutValue` calls a `Value` answers the LAST value put for its key -/
+theorem hashmap_value_after_puts {κ ν : Type} [DecidableEq κ] (hash : κ → Nat) (size lfNum lfDen : Nat) (ops : List (κ × ν)) :
+    ∃ m', HM.putAll hash (HM.new size lfNum lfDen) ops = some m' ∧ ∀ k, HM.value hash m' k = .ok (HM.lastPut ops k) := by
+  obtain ⟨m', h1, hw, hl⟩ := HM.putAll_spec hash ops (HM.new size lfNum lfDen : HM.HMap κ ν) (HM.new_wf hash size lfNum lfDen)
+  refine ⟨m', h1, fun k => ?_⟩
+  rw [HM.value_eq hash m' hw, hl k, HM.new_entries]
+  cases HM.lastPut ops k <;> simp [HM.lookup]
+
+/-- the repaired defect F36 (b2a7fc8) on the pinned shape: without the `size == 0 → 1` guard of `NewHashMap`
+    the first `PutValue` on a map created with size 0 indexes an empty bucket array -/
+theorem hashmap_new_pinned_fails :
+    HM.putValue (fun k : Nat => k) ({ arr := [], capacity := 0, lfNum := 3, lfDen := 4, total := 0 } : HM.HMap Nat Int) 5 1 = .panic := by
+  decide
+
+-- the hypotheses are satisfiable on a map that has collided, rehashed and overwritten
+example : HM.runOps (HM.intKeyHash 3) (HM.new 3 3 4) [.put 1 10, .put 4 40, .put 2 20, .put 1 11, .get 1, .get 4, .get 9, .keys] =
+    [.unit, .unit, .unit, .unit, .val (some 11), .val (some 40), .val none, .keys [some 2, some 1, some 4]] := by decide
 
 /-! ## The hypotheses are satisfiable -/
 
